@@ -1,5 +1,7 @@
 import Proofs.Lemmas.BeaconBlock
 import Proofs.Lemmas.BeaconBlockM
+import Proofs.Lemmas.BeaconBlockCompose
+import Proofs.Lemmas.BeaconBlockSteps
 /-!
 # C03 — every block or operation the spec rejects is rejected, without panicking
 
@@ -27,6 +29,13 @@ not exist; `M_sound_partial` below is the conjunction of what is proved, each pi
   version, genesis validators root, object root) up to an explicit (28-byte-truncated) hash collision:
   a signature made for another domain, fork or chain is over a different message;
 * `M_total` — no modelled slice index, division or loop bound can panic or run away.
+
+Round 3 (`M_sound_partial` below): the block-level statement from the composition `processBlock_sim` of the operation
+theorems — for every block of the block type that the specification REJECTS, `ProcessBlock` / `PostSlotTransition` of the
+state's fork reject, and they never panic or run away — given the operation steps `OpSteps` for an invariant
+(see `Proofs/Properties/C01.lean`; the simulation halves are proved for every operation kind, the preservation halves
+for one common invariant are what is missing for the full `M_sound`). Single-operation forms of the same:
+`attestation_reject_sound`, `slashing_reject_sound`.
 
 Resting on the correspondence only (modes `c03`, `c01`): every other rejection rule of the spec — the
 per-rule counts of mutants rejected *by that rule first* are in the evidence
@@ -138,8 +147,8 @@ theorem M_total :
    fun cfg cur ac vals index hq => initiateValidatorExit_total cfg cur ac vals index hq,
    expectedWithdrawals_total⟩
 
-/-- The proved part of `M_sound` (see the file header). -/
-theorem M_sound_partial :
+/-- Round 1: the soundness pieces as one statement. -/
+theorem M_sound_pieces :
     (∀ (cfg : Config) (s : State) (indices : List Nat),
         validateIndexedNoSig cfg s.validators.length indices = .ok true →
         Block.is_valid_indexed_attestation s indices true = .ok true) ∧
@@ -206,5 +215,79 @@ theorem payload_sound (cfg : Config) (s s' : State) (block : SignedBlock) (paylo
 /-- no panic where the refinement holds: `toRes` never yields `panic` -/
 theorem no_panic_of_refines {α} (m : Res α) (sp : SM α) (h : m = toRes sp) : m ≠ .panic ∧ m ≠ .outOfFuel := by
   rw [h]; cases sp <;> simp [toRes]
+
+/-! ## Round 3: the block-level statement -/
+
+open Zrnt.Proofs.BlockM (OpSteps Sim Safe) in
+/-- `M_sound_partial`: every block (of the block type) that the specification rejects is rejected by `ProcessBlock` and
+by `PostSlotTransition` of the state's fork, without panic and without a runaway loop; and a block the model accepts is
+not one the specification rejects. Premise: the operation steps `OpSteps` for an invariant `Inv` holding for the
+pre-state (FULL statement: for reachable states with `ctx = ctxOf cfg st`, without that premise; see C01's header for
+what is missing). -/
+theorem M_sound_partial {cfg : Config} {block : SignedBlock} {F : Fork} {Inv : BlockM.Ctx → State → Prop}
+    (H : OpSteps cfg block F Inv) (ctx : BlockM.Ctx) (st : State) (hi : Inv ctx st)
+    (htyped : Block.check_types cfg block = .ok ()) (r : Bytes) (hroot : block.o_post_root = some r) :
+    (∀ m, Block.process_block cfg st block = .error (.invalid m) → BlockM.processBlock cfg ctx st block = .err) ∧
+    (∀ m, Block.state_transition_post_slots cfg st block = .error (.invalid m) → BlockM.postSlotTransition cfg ctx st block = .err) ∧
+    Safe (BlockM.processBlock cfg ctx st block) ∧ Safe (BlockM.postSlotTransition cfg ctx st block) ∧
+    (∀ post, BlockM.postSlotTransition cfg ctx st block = .ok post →
+      ∀ m, Block.state_transition_post_slots cfg st block ≠ .error (.invalid m)) := by
+  have h1 := Zrnt.Proofs.BlockM.processBlock_sim H ctx st hi htyped
+  have h2 := Zrnt.Proofs.BlockM.postSlot_sim H ctx st hi htyped r hroot
+  refine ⟨h1.1.2, h2.1.2, h1.2, h2.2, fun post hp m hm => ?_⟩
+  have := h2.1.2 m hm
+  rw [hp] at this
+  cases this
+
+/-- an attestation the specification rejects is rejected by `altair.ProcessAttestation` / `deneb.ProcessAttestation`
+(whatever the rule: window, committee index, bits length, source checkpoint, block-root look-ups, structure, range or
+signature of the indexed form, proposer balance), and the code does not panic: the simulation of the operation. -/
+theorem attestation_reject_sound (cfg : Config) (ctx : BlockM.Ctx) (s : State) (att : Attestation) (T R : Nat)
+    (hfork : s.fork ≠ .phase0) (hTs : get_total_active_balance cfg s = .ok T)
+    (hcc : ctx.committeeCount att.data.target.epoch = (get_committee_count_per_slot cfg s att.data.target.epoch).toOption)
+    (hcom : ctx.committee att.data.slot att.data.index = (get_beacon_committee cfg s att.data.slot att.data.index).toOption)
+    (hprop : ctx.proposer = (Block.get_beacon_proposer_index cfg s).toOption)
+    (hsq : ctx.totalActiveStakeSqRoot = integer_squareroot T)
+    (heb : ctx.effectiveBalances = s.validators.map (·.effective_balance))
+    (hnd : ∀ c, (get_beacon_committee cfg s att.data.slot att.data.index).toOption = some c → c.Nodup)
+    (hwf : att.bits_wellformed = true) (hmaxbits : att.aggregation_bits.length ≤ cfg.MAX_VALIDATORS_PER_COMMITTEE)
+    (hspe : 0 < cfg.SLOTS_PER_EPOCH) (hmin : cfg.MIN_ATTESTATION_INCLUSION_DELAY ≤ cfg.SLOTS_PER_EPOCH)
+    (hmin1 : 1 ≤ cfg.MIN_ATTESTATION_INCLUSION_DELAY)
+    (hcur : s.slot + 2 * cfg.SLOTS_PER_EPOCH < 2 ^ 64)
+    (hsphr : 2 * cfg.SLOTS_PER_EPOCH ≤ cfg.SLOTS_PER_HISTORICAL_ROOT)
+    (hroots : s.block_roots.length = cfg.SLOTS_PER_HISTORICAL_ROOT)
+    (hslot : s.slot + cfg.SLOTS_PER_HISTORICAL_ROOT < 2 ^ 64)
+    (hnz : cfg.EFFECTIVE_BALANCE_INCREMENT ≠ 0 ∧ integer_squareroot T ≠ 0)
+    (hbrf : cfg.EFFECTIVE_BALANCE_INCREMENT * cfg.BASE_REWARD_FACTOR < 2 ^ 64)
+    (hR : ∀ v ∈ s.validators, v.effective_balance / cfg.EFFECTIVE_BALANCE_INCREMENT *
+      (cfg.EFFECTIVE_BALANCE_INCREMENT * cfg.BASE_REWARD_FACTOR / integer_squareroot T) ≤ R)
+    (hsum : cfg.MAX_VALIDATORS_PER_COMMITTEE * (R * 54) < 2 ^ 64)
+    (hbal : ∀ b ∈ s.balances, b + cfg.MAX_VALIDATORS_PER_COMMITTEE * (R * 54) < 2 ^ 64)
+    (hpc : s.current_epoch_participation.length = s.validators.length ∧ ∀ e ∈ s.current_epoch_participation, e < 256)
+    (hpp : s.previous_epoch_participation.length = s.validators.length ∧ ∀ e ∈ s.previous_epoch_participation, e < 256) :
+    (∀ m, Block.process_attestation cfg s att = .error (.invalid m) → BlockM.processAttestationAltair cfg ctx s att = .err) ∧
+    BlockM.processAttestationAltair cfg ctx s att ≠ .panic := by
+  have h := Zrnt.Proofs.BlockM.sim_attestation_altair cfg ctx s att T R hfork hTs hcc hcom hprop hsq heb hnd hwf hmaxbits hspe hmin
+    hmin1 hcur hsphr hroots hslot hnz hbrf hR hsum hbal hpc hpp
+  exact ⟨h.1.2, h.2.1⟩
+
+/-- a proposer slashing / attester slashing the specification rejects is rejected by the code, and an accepted one is
+accepted by the specification with the same post-state (from `proposerSlashing_eq`, `attesterSlashing_eq`) -/
+theorem slashing_reject_sound (cfg : Config) (ctx : BlockM.Ctx) (s : State) (op : AttesterSlashing) (p Bm C : Nat)
+    (hp : ctx.proposer = some p)
+    (hinv : Zrnt.Proofs.BlockM.SlashInv cfg s p ctx.activeCount Bm C cfg.MAX_VALIDATORS_PER_COMMITTEE s)
+    (hlen1 : op.attestation_1.attesting_indices.length ≤ cfg.MAX_VALIDATORS_PER_COMMITTEE)
+    (hlen2 : op.attestation_2.attesting_indices.length ≤ cfg.MAX_VALIDATORS_PER_COMMITTEE)
+    (hvl : s.validators.length ≤ marker)
+    (hq : cfg.CHURN_LIMIT_QUOTIENT ≠ 0)
+    (hz : cfg.EPOCHS_PER_SLASHINGS_VECTOR ≠ 0 ∧ min_slashing_penalty_quotient cfg s.fork ≠ 0 ∧
+          cfg.WHISTLEBLOWER_REWARD_QUOTIENT ≠ 0 ∧ cfg.PROPOSER_REWARD_QUOTIENT ≠ 0)
+    (hC : C + 1 + cfg.MIN_VALIDATOR_WITHDRAWABILITY_DELAY < 2 ^ 64)
+    (hepoch : s.slot / cfg.SLOTS_PER_EPOCH + cfg.EPOCHS_PER_SLASHINGS_VECTOR < 2 ^ 64)
+    (hBm : Bm * PROPOSER_WEIGHT < 2 ^ 64) :
+    (∀ s', BlockM.processAttesterSlashing cfg ctx s op = .ok s' → Block.process_attester_slashing cfg s op = .ok s') ∧
+    BlockM.processAttesterSlashing cfg ctx s op ≠ .panic ∧ BlockM.processAttesterSlashing cfg ctx s op ≠ .outOfFuel := by
+  have h := Zrnt.Proofs.BlockM.attesterSlashing_eq cfg ctx s op p Bm C hp hinv hlen1 hlen2 hvl hq hz hC hepoch hBm
+  exact ⟨fun s' hs' => sound_of_refines _ _ h s' hs', no_panic_of_refines _ _ h⟩
 
 end Zrnt.Proofs.C03
